@@ -491,6 +491,8 @@ func main() {
 					for idx := from; idx < to && len(r.Violations) == 0 && r.Inconclusive == ""; idx++ {
 						rng := c.Rand(idx)
 						g := []int{2, 3, 4, 8, 16, 64}[rng.Intn(6)]
+						r.Evals++
+						r.AddKey(fmt.Sprintf("%s|%d|%d|%d", b.Kind, idx, g, rng.Int63()))
 						switch b.Kind {
 						case "hammer":
 							hammer(r, rng, kinds[idx%len(kinds)], g, 1+rng.Intn(5))
